@@ -125,21 +125,33 @@ let str_of_obs = function
   | ROpt (Some f) -> "= some " ^ str_of_frame f
 
 (* `seq`: stdin = trace; lines "OP ..." are executed, everything else is skipped;
-   a line "NEW <now>" starts a fresh store. Output: "OP ..." echo + "= ..." *)
+   a line "NEW <now>" starts a fresh store.  Output per op:
+     OP ...          echo
+     = ...           observation of the concrete model (Model/Store.v)
+     ~ ...           observation of the abstract spec  (Model/Spec.v)
+     ! hyp           (only when the refinement hypotheses are violated by this op;
+                      from then on the spec is not expected to agree) *)
 let run_seq () =
   let s = ref (empty_store N0) in
+  let a = ref (a_empty N0) in
   (try
      while true do
        let line = input_line stdin in
        let toks = String.split_on_char ' ' (String.trim line) in
        match toks with
-       | "NEW" :: [now] -> s := empty_store (n_of_hex now); print_endline line
+       | "NEW" :: [now] ->
+         s := empty_store (n_of_hex now); a := a_empty (n_of_hex now); print_endline line
        | "OP" :: rest ->
          let o = parse_op rest in
+         let h = hyp_ok !a o in
          let (ob, s') = step !s o in
-         s := s';
+         let (ab, a') = a_step !a o in
+         s := s'; a := a';
          print_endline line;
-         print_endline (str_of_obs ob)
+         print_endline (str_of_obs ob);
+         let sa = str_of_obs ab in
+         print_endline ("~" ^ String.sub sa 1 (String.length sa - 1));
+         if not h then print_endline "! hyp"
        | _ -> ()
      done
    with End_of_file -> ())
